@@ -7,6 +7,7 @@ import (
 	"math/big"
 	"os"
 	"regexp"
+	"runtime/debug"
 	"sort"
 	"strings"
 
@@ -175,11 +176,12 @@ type FuncResult struct {
 	Trusted []string
 }
 
-var reNcalls = regexp.MustCompile(`ncalls\(([^()]*(?:\([^()]*\))?[^()]*)\)`)
+var reNcalls = regexp.MustCompile(`ncalls\(([^()"]*(?:\([^()]*\))?[^()"]*)\)`)
+var reNcallsStr = regexp.MustCompile(`ncalls\("([^"]*)"\)`)
 
 // VerifyFunc generates the obligations of one function under contract.
-func (E *Engine) VerifyFunc(p *packages.Package, pc *PkgContracts, c *FuncContract) *FuncResult {
-	res := &FuncResult{Key: c.Key, Pkg: p.PkgPath, Mode: c.Mode, Trusted: c.Trusted}
+func (E *Engine) VerifyFunc(p *packages.Package, pc *PkgContracts, c *FuncContract) (res *FuncResult) {
+	res = &FuncResult{Key: c.Key, Pkg: p.PkgPath, Mode: c.Mode, Trusted: c.Trusted}
 	decl := E.findDecl(p, c.Key)
 	f := &FuncCtx{E: E, Pkg: p, Decl: decl, C: c, PC: pc, S: NewSorts(modulePath), key: p.Types.Name() + "." + c.Key,
 		callOrd: map[string]int{}, safeOrd: map[string]int{}, trackCall: map[string]bool{}, notes: map[string]bool{},
@@ -195,7 +197,7 @@ func (E *Engine) VerifyFunc(p *packages.Package, pc *PkgContracts, c *FuncContra
 	}
 	defer func() {
 		if r := recover(); r != nil {
-			res.Errs = append(res.Errs, fmt.Sprintf("engine panic: %v", r))
+			res.Errs = append(res.Errs, fmt.Sprintf("engine panic: %v\n%s", r, debug.Stack()))
 			o := &Obligation{Name: f.key + "/generate", Kind: "generate", Fn: f.key, Pkg: p.PkgPath, Gen: fmt.Sprintf("engine panic: %v", r), Props: c.Props}
 			res.Obls = append(res.Obls, o)
 		}
@@ -226,6 +228,9 @@ func (E *Engine) VerifyFunc(p *packages.Package, pc *PkgContracts, c *FuncContra
 	}
 	for _, t := range allText {
 		for _, m := range reNcalls.FindAllStringSubmatch(t, -1) {
+			f.trackCall[strings.TrimSpace(m[1])] = true
+		}
+		for _, m := range reNcallsStr.FindAllStringSubmatch(t, -1) {
 			f.trackCall[strings.TrimSpace(m[1])] = true
 		}
 	}
@@ -394,8 +399,14 @@ func (f *FuncCtx) frameObligation(exit *Env, sig *types.Signature) {
 			continue // by-reference parameter: nothing to check on the heap
 		}
 		saved := f.spec
-		f.spec = &specCtx{old: f.entry, scope: f.Decl.Body, pcs: f.PC}
+		f.spec = &specCtx{old: f.entry, scope: f.Decl.Body, pcs: f.PC, pos: f.Decl.Body.Rbrace}
+		nerr := len(f.errs)
 		base := f.specExpr(sel.X, f.entry)
+		if len(f.errs) > nerr || base.Typ == nil {
+			// not a parameter: a local of the function (evaluated in the exit state)
+			f.errs = f.errs[:nerr]
+			base = f.specExpr(sel.X, exit)
+		}
 		f.spec = saved
 		if _, el, ok := ptrStruct(base.Typ); ok {
 			if obj, _ := lookupFieldAnyPkg(base.Typ, sel.Sel.Name); obj != nil {
